@@ -1144,6 +1144,10 @@ class Engine:
                     A("moveout", box=bp[0], field=bp[1], how=d.rsplit("::", 1)[1], res=res, put=args[1] if d.endswith("::replace") and len(args) > 1 else None)
                 else:
                     A("set", box=bp[0], field=bp[1], value=("unk", d), cls="other:" + d)
+            elif d == "core::mem::replace" and len(args) == 2 and args[0][0] == "param":
+                # `mem::replace(this, new)` on a handle slot of the caller: the slot holds the new value from here on (what
+                # is handed back is the old one)
+                A("store", place=mk_deref(args[0]), value=args[1], how="replace")
             elif args and d.startswith("core::mem::"):
                 # the *contents* of a link table taken / replaced through a guard: every record of that object is discarded
                 for a in (args[:2] if d.endswith("swap") else args[:1]):
